@@ -592,6 +592,7 @@ class QueryObjectDescriptor(CanBehaveLikeAVariable[T], ABC):
     selected_variables: List[CanBehaveLikeAVariable[T]] = field(default_factory=list)
     warned_vars: typing.Set = field(default_factory=set, init=False)
     rule_mode: bool = field(default=False, init=False)
+    _resetting_cache_: bool = field(default=False, init=False, repr=False)
 
     def __post_init__(self):
         super().__post_init__()
@@ -599,6 +600,20 @@ class QueryObjectDescriptor(CanBehaveLikeAVariable[T], ABC):
             self.rule_mode = True
         for variable in self.selected_variables:
             variable._var_._node_.enclosed = True
+
+    def _reset_cache_(self) -> None:
+        if self._resetting_cache_:
+            # reached again through what is selected (a selected variable can have this descriptor beneath it).
+            return
+        self._resetting_cache_ = True
+        try:
+            super()._reset_cache_()
+            # what is selected is not a child of this descriptor in the expression graph, but it is evaluated with it:
+            # an inferred variable with sub-queries among its arguments keeps duplicate tracking state of its own.
+            for selected_variable in self.selected_variables:
+                selected_variable._reset_cache_()
+        finally:
+            self._resetting_cache_ = False
 
     @lru_cache(maxsize=None)
     def _required_variables_from_child_(self, child: Optional[SymbolicExpression] = None, when_true: bool = True):
